@@ -161,7 +161,7 @@ watchers:
 	cs := Case{Tags: []string{"inotify"}, NonTrivial: true}
 	cmd := exec.Command(taskctlBin(), "-c", filepath.Join(root, "tasks.yaml"), "watch", "w")
 	cmd.Dir = root
-	cmd.Env = []string{"PATH=" + os.Getenv("PATH"), "HOME=" + root}
+	cmd.Env = append([]string{"PATH=" + os.Getenv("PATH"), "HOME=" + root}, covEnv()...)
 	cmd.SysProcAttr = &syscall.SysProcAttr{Setpgid: true}
 	var stderr strings.Builder
 	cmd.Stderr = &stderr
@@ -272,7 +272,7 @@ watchers:
 	cs := Case{Tags: []string{"inotify", "two-watchers"}, NonTrivial: true}
 	cmd := exec.Command(taskctlBin(), "-c", filepath.Join(root, "tasks.yaml"), "watch", "w1", "w2")
 	cmd.Dir = root
-	cmd.Env = []string{"PATH=" + os.Getenv("PATH"), "HOME=" + root}
+	cmd.Env = append([]string{"PATH=" + os.Getenv("PATH"), "HOME=" + root}, covEnv()...)
 	cmd.SysProcAttr = &syscall.SysProcAttr{Setpgid: true}
 	var stderr strings.Builder
 	cmd.Stderr = &stderr
@@ -349,7 +349,7 @@ watchers:
 	cs := Case{Tags: []string{"inotify", "overlapping-event-runs"}, NonTrivial: true}
 	cmd := exec.Command(taskctlBin(), "-c", filepath.Join(root, "tasks.yaml"), "watch", "w")
 	cmd.Dir = root
-	cmd.Env = []string{"PATH=" + os.Getenv("PATH"), "HOME=" + root}
+	cmd.Env = append([]string{"PATH=" + os.Getenv("PATH"), "HOME=" + root}, covEnv()...)
 	cmd.SysProcAttr = &syscall.SysProcAttr{Setpgid: true}
 	var stderr strings.Builder
 	cmd.Stderr = &stderr
